@@ -85,7 +85,7 @@ impl Proc {
 }
 
 pub struct Run<'a> {
-    pub args: Vec<String>,
+    pub args: Vec<std::ffi::OsString>,
     pub cwd: &'a Path,
     pub stdin: &'a [u8],
     /// Fault plan for the shim (None: no shim at all).
